@@ -46,6 +46,27 @@ def tus(tier, seed):
         res.append(dict(name='C08_%d' % (i // per), src=body, compiler='g++'))
         if tier == 'thorough' and (i // per) % 4 == 0:
             res.append(dict(name='C08_%d_clang' % (i // per), src=body, compiler='clang++'))
+    # wrapper (op) built-in integer on either side, comparisons; division by cnl::constant<N>
+    rnd = random.Random(seed * 53 + 1)
+    mixed = [('nrst', 'i8', 'i32'), ('tpi', 'u8', 'i16'), ('ninf', 'i16', 'u32'), ('nat', 'i8', 'i64'), ('nrst', 'u32', 'i64'), ('tpi', 'i32', 'i8')]
+    for _ in range(2 if tier == 'quick' else 16):
+        mixed.append((rnd.choice(list(TAGS)), rnd.choice(list(CT)), rnd.choice(list(CT))))
+    for i in range(0, len(mixed), 2):
+        body = '#include "%s"\nint main(){ install(); Rng rng(seed_from_env()+3000+%d);\n' % (__file__.replace('.py', '.h'), i)
+        for (tag, l, r) in mixed[i:i + 2]:
+            body += '  gom<%s, %s, %s>(rng);\n' % (TAGS[tag], CT[l], CT[r])
+        body += '}\n'
+        res.append(dict(name='C08_mixed_%d' % (i // 2), src=body, compiler='g++'))
+    consts = [2, 4, 3, 8, -2, 16, 1024, 7, -4, 5000000000]
+    body = '#include "%s"\nint main(){ install(); Rng rng(seed_from_env()+4000);\n' % (__file__.replace('.py', '.h'))
+    k = 0
+    for tag in TAGS:
+        for t in ['i8', 'u8', 'i32', 'u32', 'i64', 'u64', 'i16']:
+            n = consts[(k + seed) % len(consts)]
+            k += 1
+            body += '  divc<%s, %s, %dLL, %s>(rng);\n' % (TAGS[tag], CT[t], n, 'std::int32_t' if abs(n) < 2**31 else 'std::int64_t')
+    body += '}\n'
+    res.append(dict(name='C08_const', src=body, compiler='g++'))
     return res
 
 
